@@ -1092,7 +1092,11 @@ struct Runner {
             // one-time allocations (stdio, unordered_map rehash...) disappear on a second run
             Outcome o2 = evaluate(s.hist, &s.key, s.tainted, &op, false, &seen, d + 1 == t.depth);
             if (o2.heap_unbalanced) {
-              if (!res.diag_heap && getenv("C32_TRACE_HEAP")) { g_trace_heap = true; evaluate(s.hist, &s.key, s.tainted, &op, false, &seen, d + 1 == t.depth); g_trace_heap = false; }
+              if (!res.diag_heap && getenv("C32_TRACE_HEAP")) { // debugging aid: print the allocator calls of the first such case
+                g_trace_heap = true;
+                evaluate(s.hist, &s.key, s.tainted, &op, false, &seen, d + 1 == t.depth);
+                g_trace_heap = false;
+              }
               res.diag_heap++;
               if (res.diag_heap_first.empty()) res.diag_heap_first = hist_text(s.hist, &op);
             }
@@ -1244,8 +1248,12 @@ int main(int argc, char** argv) {
   reg_cap<4>();
   __sanitizer_set_death_callback(death_callback);
 
-  // Argument sets: {0,1,2,3} plus boundary-1/boundary/boundary+1 for the bucket boundaries of a
-  // default-constructed vector (first bucket F = kDefaultCapacity/2; buckets end at F, 2F, 4F, 8F).
+  // Argument sets.  A default-constructed vector has first bucket length F = kDefaultCapacity/2 and buckets
+  // [0,F) [F,2F) [2F,4F) [4F,8F)...: capacity 2 -> boundaries 1,2,4,8; capacity 4 -> boundaries 2,4,8.
+  //   quick   : depth 3, sizes {0,1,2,3} + {3,4,5} (boundary 4 -1/0/+1), insert counts and ilist lengths {0,1,2,3}.
+  //   thorough: pass 1 depth 3, sizes {0,1,2,3} + {3,4,5} + {7,8,9} (boundaries 4 and 8), insert counts {0,1,2,3};
+  //             pass 2 depth 4, sizes / counts / ilist lengths {0,1,3} (sums reach 12, i.e. four buckets at cap 2).
+  // (depth 4 over the quick alphabet would be ~10^9 evaluations: the last level is (#states ~1e5) x (~270 ops) x 24.)
   std::vector<Tier> passes;
   auto add_pass = [&](int depth, std::vector<int> a2, std::vector<int> a4, std::vector<int> s2, std::vector<int> s4,
                       std::vector<int> il = {0, 1, 2, 3, 5}) {
@@ -1264,9 +1272,9 @@ int main(int argc, char** argv) {
              small_override.empty() ? args_override : small_override);
   } else if (tier == "thorough") {
     add_pass(3, A9, A9, {0, 1, 2, 3}, {0, 1, 2, 3});
-    add_pass(4, {0, 1, 3}, {0, 1, 3}, {0, 1}, {0, 1}, {0, 1, 3});
+    add_pass(4, {0, 1, 3}, {0, 1, 3}, {0, 1, 3}, {0, 1, 3}, {0, 1, 3});
   } else {
-    add_pass(depth_override ? depth_override : 3, A6, A6, {0, 1, 2, 3}, {0, 1, 2, 3});
+    add_pass(depth_override ? depth_override : 3, A6, A6, {0, 1, 2, 3}, {0, 1, 2, 3}, {0, 1, 2, 3});
   }
 
   if (!replay_file.empty()) {
